@@ -116,8 +116,9 @@ impl ReplicationFetcher {
         // Remove any outdated entries in `to_be_fetched`
         self.remove_stored_keys(locally_stored_keys);
 
-        // Special case for single new key
-        if new_incoming_keys.len() == 1 {
+        // Special case for a single key that got advertised, i.e. a fresh record pushed by its holder
+        // (a periodic multi-key list reduced to one new key still has to pass the range check below)
+        if total_incoming_keys == 1 && new_incoming_keys.len() == 1 {
             let (record_address, record_type) = new_incoming_keys[0].clone();
 
             let new_data_key = (record_address.to_record_key(), record_type);
